@@ -297,7 +297,7 @@ def src_content(rng, headers):
     return "".join("#include %s\n" % h for h in inc + extra) + "// v%d\n" % rng.randint(0, 999)
 
 
-def gen_history(rng, nmax=6, with_regen=False, ninv=None, with_pools=False):
+def gen_history(rng, nmax=6, with_regen=False, ninv=None, with_pools=False, with_restat=False):
     """returns (steps(list of str), invs(list of meta), state per invocation for the clean-build oracle)"""
     text, info = gen_project(rng, nmax=nmax, with_regen=with_regen, with_pools=with_pools)
     files = {}
@@ -326,9 +326,10 @@ def gen_history(rng, nmax=6, with_regen=False, ninv=None, with_pools=False):
     invs = []
     outs_flat = [o for os_ in info["outs_all"] for o in os_]
     ninv = ninv or rng.randint(2, 5)
+    after_restat = None
     for r in range(ninv):
         new_target = None
-        if r > 0:
+        if r > 0 and after_restat is None:
             for _ in range(rng.randint(0, 3)):
                 c = rng.random()
                 if c < 0.25:
@@ -419,9 +420,14 @@ def gen_history(rng, nmax=6, with_regen=False, ninv=None, with_pools=False):
             targets = ["build.ninja"]
         if new_target:
             targets = [new_target] + targets[:1]
+        adopt = False
+        if after_restat is not None:
+            targets, after_restat = after_restat, None       # right after `-t restat`: the same request, nothing edited -> nothing to do
+        elif with_restat and r > 0 and r + 1 < ninv and rng.random() < 0.12:
+            adopt, after_restat = True, list(targets)        # `-t restat`: the present state counts as up to date, no command runs
         script = S.gen_script(rng, rng.randint(0, 8), fail_rate=rng.choice([0, 0, 0, 0.2]), interrupt_rate=rng.choice([0, 0, 0.05]))
-        steps.append(S.inv_cmd(j, k, False, targets, script, manifest=mspell))
-        invs.append({"j": j, "k": k, "adopt": False, "targets": targets, "files": dict(files), "nsteps": len(steps), "manifest": mspell})
+        steps.append(S.inv_cmd(j, k, adopt, targets, script, manifest=mspell))
+        invs.append({"j": j, "k": k, "adopt": adopt, "targets": targets, "files": dict(files), "nsteps": len(steps), "manifest": mspell})
     return steps, invs, info
 
 
